@@ -269,7 +269,7 @@ func (g *vfGen) genC15() {
 		g.emit(vfOp("res", doc, 0))
 	}
 	// labels that look like further parameters, a second charset, a type, or need no quoting at all
-	for _, l := range []string{"utf-8;charset=latin1", "a;b=c", "x;charset=y", "koi8-r;", ";", "a=b", "text/html", "a,b", "x;q=1;charset=z",
+	for _, l := range []string{"\u00e9", "\u043a\u043e\u04388-\u0440", "\uff55\uff54\uff46-\uff18", "latin\u0661", "caf\u00e9-1", "x\u00a0y", "\u00c9", "a\u0300", "\U0001d4ca", "utf-8;charset=latin1", "a;b=c", "x;charset=y", "koi8-r;", ";", "a=b", "text/html", "a,b", "x;q=1;charset=z",
 		"utf-8;CHARSET=x", "a;charset", "(x)", "a@b", "x?y", "[1]", "a:b", "<x>", "l1;charset=l2;charset=l3"} {
 		for _, tmpl := range [][2]string{{"<html><meta charset=\"", "\"><body>x"}, {"<html><meta charset='", "'><body>x"},
 			{"<html><meta http-equiv=content-type content='text/html; charset=\"", "\"'>"}, {"<?xml version=\"1.0\" encoding=\"", "\"?><r/>"}} {
